@@ -1,6 +1,7 @@
 package prop
 
 import (
+	"math/big"
 	"bytes"
 	"encoding/hex"
 	"encoding/json"
@@ -389,7 +390,16 @@ func c12Import(run *ev.Run, chain *allChain, seed string, mode importMode, state
 		if sec, ok := state[mod]; ok {
 			det["rejected_section"] = trunc(compactJSON(sec), 6000)
 		}
-		run.Violation(fmt.Sprintf("C12:import-rejected:%s:%s:%s", tag, mod, errClass(err)), det, "%s import of the genesis exported at height %d was rejected (%s): %v", tag, a.Height, mod, trunc(err.Error(), 600))
+		cls := errClass(err)
+		// "X is over the supply limit Y" with X <= Y is a different rejection from the listed one (limit lowered below what exists)
+		if m := reOverLimit.FindStringSubmatch(err.Error()); m != nil {
+			x, _ := new(big.Int).SetString(m[1], 10)
+			y, _ := new(big.Int).SetString(m[2], 10)
+			if x != nil && y != nil && x.Cmp(y) <= 0 {
+				cls += " (although it is not over)"
+			}
+		}
+		run.Violation(fmt.Sprintf("C12:import-rejected:%s:%s:%s", tag, mod, cls), det, "%s import of the genesis exported at height %d was rejected (%s): %v", tag, a.Height, mod, trunc(err.Error(), 600))
 		run.Class("import", tag, mode.Only, "rejected")
 		return
 	}
@@ -483,6 +493,8 @@ func c12Import(run *ev.Run, chain *allChain, seed string, mode importMode, state
 	}
 	run.Sample("import:"+tag+":"+mode.Only, map[string]any{"mode": mode.Name, "isolated_module": mode.Only, "source_height": a.Height, "imported_at_height": height})
 }
+
+var reOverLimit = regexp.MustCompile(`supply (\d+)[a-z][a-z0-9/]* is over the supply limit (\d+)`)
 
 var reModPath = regexp.MustCompile(`mods\.irisnet\.org/modules/(\w+)`)
 
